@@ -48,6 +48,11 @@ type Event struct {
 	Name  int     `json:"name,omitempty"`
 	Size  int64   `json:"size,omitempty"`
 	Fs    []Fault `json:"fs,omitempty"`
+	// pair: First is started and held inside the replicas (gate "write": every fake WriteAt, "http": every
+	// fake HTTP answer, "snap": every fake Snapshot) while Second is issued; then the gate opens
+	First  *Event `json:"first,omitempty"`
+	Second *Event `json:"second,omitempty"`
+	Gate   string `json:"gate,omitempty"`
 }
 
 type WRep struct {
@@ -77,6 +82,7 @@ type RepObs struct {
 
 type Obs struct {
 	Res        string     `json:"res"` // ok | err | none | panic
+	Res1       string     `json:"res1,omitempty"` // result of the first request of a pair
 	Replicas   [][2]string `json:"replicas"`
 	RO         bool       `json:"ro"`
 	RWC        int        `json:"rwc"`
@@ -138,6 +144,10 @@ type harness struct {
 	order    []int
 	mutated  map[int]bool
 	fresh    []*instance // created during the current event
+	gateKind string        // "" = no gate
+	gateCh   chan struct{} // closed to open the gate
+	gateIn   chan struct{} // signalled when somebody reaches the gate
+	wfaults  map[string]bool // write faults keyed by write id (pairs)
 	names    map[string]int
 	nextAuto int
 	feUp     bool
@@ -164,6 +174,22 @@ func parseAddr(s string) int {
 }
 
 func (h *harness) flt(a int, k string) bool { return h.faults[fmt.Sprintf("%d/%s", a, k)] }
+
+// hold blocks the caller while a gate of this kind is set (called without h.mu)
+func (h *harness) hold(kind string) {
+	h.mu.Lock()
+	ch, in := h.gateCh, h.gateIn
+	match := h.gateKind == kind
+	h.mu.Unlock()
+	if !match || ch == nil {
+		return
+	}
+	select {
+	case in <- struct{}{}:
+	default:
+	}
+	<-ch
+}
 
 func (h *harness) snapID(name string) int {
 	if id, ok := h.names[name]; ok {
@@ -250,18 +276,22 @@ func (f *factory) VerifyReplicaAlive(address string) bool {
 func (in *instance) lock() func() { in.h.mu.Lock(); return in.h.mu.Unlock }
 
 func (in *instance) WriteAt(p []byte, off int64) (int, error) {
+	in.h.hold("write")
 	defer in.lock()()
 	h, r := in.h, in.rep
+	wid := int(binary.LittleEndian.Uint64(p[:8]))
+	if h.wfaults[fmt.Sprintf("%d/write#%d", r.a, wid)] {
+		return 0, errors.New("write failed")
+	}
 	if h.flt(r.a, "write") {
 		return 0, errors.New("write failed")
 	}
-	wid := int(binary.LittleEndian.Uint64(p[:8]))
 	r.applied = append(r.applied, wid)
 	if r.mode == "RW" {
 		r.rev++
 	}
 	h.mutated[r.a] = true
-	if h.flt(r.a, "writeap") {
+	if h.flt(r.a, "writeap") || h.wfaults[fmt.Sprintf("%d/writeap#%d", r.a, wid)] {
 		return 0, errors.New("timeout")
 	}
 	return len(p), nil
@@ -305,6 +335,7 @@ func (in *instance) Close() error {
 }
 
 func (in *instance) Snapshot(name string, userCreated bool, created string) error {
+	in.h.hold("snap")
 	defer in.lock()()
 	h, r := in.h, in.rep
 	h.snapID(name)
@@ -458,6 +489,7 @@ func serveHTTP(a int) error {
 			w.WriteHeader(500)
 			return
 		}
+		h.hold("http")
 		h.mu.Lock()
 		r := h.reps[a]
 		bad := h.flt(a, "http")
@@ -497,7 +529,53 @@ func (h *harness) setFaults(fs []Fault) {
 	h.signals = nil
 	h.order = nil
 	h.mutated = map[int]bool{}
+	h.wfaults = map[string]bool{}
 	h.mu.Unlock()
+}
+
+// pair: run First until it is held at the gate, issue Second, open the gate
+func (h *harness) pair(e Event, pendAdd map[int]int) (string, string, string) {
+	f, s2 := *e.First, *e.Second
+	h.mu.Lock()
+	h.faults = map[string]bool{}
+	h.wfaults = map[string]bool{}
+	for _, x := range f.Fs {
+		if f.K == "write" && (x.K == "write" || x.K == "writeap") {
+			h.wfaults[fmt.Sprintf("%d/%s#%d", x.A, x.K, f.Wid)] = true
+		} else {
+			h.faults[fmt.Sprintf("%d/%s", x.A, x.K)] = true
+		}
+	}
+	for _, x := range s2.Fs {
+		if s2.K == "write" && (x.K == "write" || x.K == "writeap") {
+			h.wfaults[fmt.Sprintf("%d/%s#%d", x.A, x.K, s2.Wid)] = true
+		} else {
+			h.faults[fmt.Sprintf("%d/%s", x.A, x.K)] = true
+		}
+	}
+	h.gateKind = e.Gate
+	h.gateCh = make(chan struct{})
+	h.gateIn = make(chan struct{}, 64)
+	gate, in := h.gateCh, h.gateIn
+	h.mu.Unlock()
+	d1 := make(chan [2]string, 1)
+	d2 := make(chan [2]string, 1)
+	go func() { r, n := h.exec(f, pendAdd); d1 <- [2]string{r, n} }()
+	select {
+	case <-in:
+	case r := <-d1: // the first request finished without reaching the gate
+		d1 <- r
+	case <-time.After(300 * time.Millisecond):
+	}
+	go func() { r, n := h.exec(s2, pendAdd); d2 <- [2]string{r, n} }()
+	time.Sleep(40 * time.Millisecond)
+	h.mu.Lock()
+	h.gateKind = ""
+	h.mu.Unlock()
+	close(gate)
+	r1 := <-d1
+	r2 := <-d2
+	return r1[0], r2[0], r2[1]
 }
 
 func guard(f func() error) (res string, note string) {
@@ -772,7 +850,7 @@ func runCase(cs Case) Out {
 	out := Out{ID: cs.ID}
 	os.Setenv("REPLICATION_FACTOR", strconv.Itoa(cs.RF))
 	h := &harness{gates: map[int]int{}, entered: make(chan int, 8), names: map[string]int{}, nextAuto: 1000,
-		faults: map[string]bool{}, mutated: map[int]bool{}}
+		faults: map[string]bool{}, mutated: map[int]bool{}, wfaults: map[string]bool{}}
 	for range cs.World {
 		h.release = append(h.release, make(chan struct{}))
 		h.results = append(h.results, make(chan string, 16))
@@ -793,6 +871,13 @@ func runCase(cs Case) Out {
 	pendAdd := map[int]int{}
 	for _, e := range cs.Events {
 		h.setFaults(e.Fs)
+		if e.K == "pair" && e.First != nil && e.Second != nil {
+			r1, r2, note := h.pair(e, pendAdd)
+			o := h.observe(r2, note, *e.Second)
+			o.Res1 = r1
+			out.Obs = append(out.Obs, o)
+			continue
+		}
 		res, note := h.exec(e, pendAdd)
 		out.Obs = append(out.Obs, h.observe(res, note, e))
 	}
